@@ -449,7 +449,7 @@ fn run_case(case: &Case, ctx: &mut Ctx, track: bool) -> Result<(), Fail> {
     Ok(())
 }
 
-fn case_tracked(bytes: &[u8], _s: &[u8], ctx: &mut Ctx) -> Result<(), Fail> {
+pub fn case_tracked(bytes: &[u8], _s: &[u8], ctx: &mut Ctx) -> Result<(), Fail> {
     let mut src = Source::new(bytes);
     let case = decode(&mut src, false);
     ctx.case(&case);
